@@ -391,11 +391,6 @@ def run(seed, tier, lean) -> Result:
             res.bump(f'ill-formed (generated code only): {what} -> {raised}')
             if 'error' in gout[i]:
                 res.violations.append(genexec.driver_error('C15', gout[i]['error'], {'spec': s, 'what': what}))
-            elif what == 'subtype of an untyped operand' and raised == 'AttributeError' and gout[i]['model'].get('error') == 'LanguageGraphStepExpressionError':
-                # FINDING of this round (notes/NOTES_genexec2_lang.md, not repaired): the translator drops `logger.error(...)`
-                # statements with their arguments; in the `subType` case the argument `result_target_asset.name` raises
-                # AttributeError when the operand is untyped.  Both sides reject, the classes differ: counted, not reported
-                res.bump('generated_code_known_class_difference (dropped logger argument): ' + what)
             elif gout[i]['model'].get('error') != (None if raised is None else gen_class(raised)):
                 res.violations.append(genexec.divergence('C15', '_generate_graph', f'on the exception an ill-formed language ({what}) ends in: the implementation '
                     f'{"raises " + raised if raised else "returns a language graph"}, the generated code {"raises " + gout[i]["model"]["error"] if "error" in gout[i]["model"] else "returns a language graph"}',
